@@ -161,7 +161,15 @@ def jacLoop (D : Derivs α) (pix : List (α × α)) : List (Comp α × Vary) →
 def jacRows (D : Derivs α) (pix : List (α × α)) (comps : List (Comp α × Vary)) : List (List α) :=
   jacLoop D pix comps []
 
-/-! ### the documented order, as a specification -/
+/-! ### the documented order, as a specification
+
+  "Documented order" is a property of the MODEL (components and their vary flags), not of the
+  `lmfit.Parameters` object that carries it: component 0 first, then component 1, …; inside a
+  component amp, xo, yo, sx, sy, theta; only the free ones.  It does not depend on the order in
+  which the `c<i>_<name>` entries were inserted into the Parameters object (the correspondence
+  builds them component by component, quantity by quantity, reversed, and with entries deleted
+  and re-added).  lmfit's own variable order *is* the insertion order; `do_lmfit` has to permute
+  the columns it hands over accordingly (harness probe `optimiser_pairing`). -/
 
 /-- the free parameters, component-major, inside a component in the order amp, xo, yo, sx, sy,
     theta; `i₀` is the index of the first component of the list -/
